@@ -241,3 +241,34 @@ func (p *Prog) LibType(rel string) *types.Named {
 	}
 	return n
 }
+
+
+// CondPos: file:line:col of the condition of an If (the If instruction itself carries no position).
+func (p *Prog) CondPos(in *ssa.If) string {
+	var find func(v ssa.Value, depth int) token.Pos
+	find = func(v ssa.Value, depth int) token.Pos {
+		if v.Pos().IsValid() {
+			return v.Pos()
+		}
+		if depth > 3 {
+			return token.NoPos
+		}
+		if i, ok := v.(ssa.Instruction); ok {
+			for _, op := range i.Operands(nil) {
+				if *op != nil {
+					if ps := find(*op, depth+1); ps.IsValid() {
+						return ps
+					}
+				}
+			}
+		}
+		return token.NoPos
+	}
+	pos := find(in.Cond, 0)
+	if !pos.IsValid() {
+		return p.InstrPos(in)
+	}
+	pp := p.Fset.Position(pos)
+	f := strings.TrimPrefix(pp.Filename, p.Repo+"/")
+	return fmt.Sprintf("%s:%d:%d", f, pp.Line, pp.Column)
+}
